@@ -191,6 +191,13 @@ def run(m: Model, r: Report, tier: str) -> None:
     r.check(okn, "R4", f"{fn.qualname}#identified-filter",
             f"{detail_n}; a not-activated session is listed / stored iff it was never activated and its NRC is not subFunctionNotSupportedInActiveSession (0x7E)", loc=fn.loc)
 
+    # the probe loops run over their whole domain: nothing leaves them early (a `break` would drop all remaining session ids / stacks of the level)
+    brk = [n.lineno for n in ast.walk(W) if isinstance(n, ast.Break)]
+    r.check(not brk, "R5", f"{fn.qualname}#no-early-exit", f"`break` at line(s) {brk} inside the level / stack / session loops: the remaining candidates are never probed", loc=fn.loc)
+    if len(neg_loops) == 1 and len(nifs) == 1:
+        dd = [x for x in nifs[0].body if isinstance(x, ast.If)]
+        r.check(len(dd) >= 1 and m.mtext(fn, dd[0].test).replace(" ", "") == "_L!=_L", "R4", f"{fn.qualname}#identified-once",
+                "a not-activated session must be listed / stored once (when it differs from the previously listed one)", loc=fn.loc)
     from sa.util import accepts_domain, check_unravel_inclusive
     refused = accepts_domain(m, "gallia.services.uds.core.utils.check_sub_function", range(1, 0x80))
     r.check(not refused, "R5", "gallia.services.uds.core.utils.check_sub_function#accepts-probe-domain",
